@@ -16,6 +16,7 @@ pub fn generate(driver: &str, seed: u64, count: u64, opts: &Opts) -> Vec<History
         match driver {
             "walk" => out.push(walk(&mut rng, i, opts)),
             "paired" => out.extend(paired(&mut rng, i, opts)),
+            "star" => out.extend(star(&mut rng, i, opts)),
             "chunked" => out.extend(chunked(&mut rng, i, opts)),
             "soup" => out.extend(soup(&mut rng, i, opts)),
             "chunkedsoup" => out.extend(chunkedsoup(&mut rng, i, opts)),
@@ -299,6 +300,29 @@ pub fn walk(rng: &mut Rng, i: u64, opts: &Opts) -> History {
         evs.push(event(rng, &w, c, l, p, !utf8 && p != "api"));
     }
     History { id: format!("walk-{}-{}-{}", port, focus, i), sid: String::new(), cmp: String::new(), c, l, scr: true, utf8, evs, setup: vec![], dispsetup: false }
+}
+
+/// star exploration: at several nodes of a random walk, every kind of operation is tried once from
+/// the state reached there (the walk prefix is the setup: executed on the real code, not logged)
+pub fn star(rng: &mut Rng, i: u64, opts: &Opts) -> Vec<History> {
+    let base = walk(rng, i, opts);
+    let focus = getopt(opts, "focus", "");
+    let w = weights(focus);
+    let every: usize = getopt(opts, "every", "6").parse().unwrap();
+    let per: u64 = getopt(opts, "per", "24").parse().unwrap();
+    let mut out = Vec::new();
+    let mut k = every;
+    while k <= base.evs.len() {
+        for j in 0..per {
+            let e = event(rng, &w, base.c, base.l, "api", false);
+            out.push(History {
+                id: format!("star-{}-{}-{}", i, k, j), sid: String::new(), cmp: String::new(), c: base.c, l: base.l, scr: true, utf8: true,
+                evs: vec![e], setup: base.evs[..k].to_vec(), dispsetup: false,
+            });
+        }
+        k += every;
+    }
+    out
 }
 
 /// the same history with display() interposed at no position and at a random
